@@ -156,7 +156,7 @@ def run_case(chk, stream, case):
     import random
     if stream == "random":
         r = random.Random(case["seed"])
-        c, writes, L, err = execute(case["work"], lambda runnable: r.choice(runnable))
+        c, writes, L, err = execute(case["work"], coop.chooser(r))
         chk.hit("threads:%d" % len(case["work"]), "switches:%d" % min(9, sum(1 for a, b in zip(c.choices, c.choices[1:]) if a != b) // 3))
         return check_run(chk, case, c, writes, L, err, "random")
     # exhaustive: depth-first over all choice sequences
